@@ -44,6 +44,10 @@ def build_g5(V):
         name = "?"
         if fn.endswith("g5/defs/src/lib.rs"):
             decl = ""
+            # an error inside the generated bridge code (impl Model / impl Proj lines) is the harness's own
+            at = src[line - 1] if 0 < line <= len(src) else ""
+            if re.match(r"\s*(impl\b|fn\b)", at) or "fn proj(" in at or "fn from_aval(" in at or "fn to_aval(" in at or "fn arb(" in at:
+                raise ToolError(f"the generated bridge code of the grammar crate does not compile ({fn}:{line}): {code} {msg}\n{at[:300]}")
             # the span of a derive error is the #[derive] line: the definition follows within a few lines
             cand = list(range(line - 1, min(len(src), line + 6))) + list(range(line - 2, max(0, line - 12), -1))
             for i in cand:
